@@ -310,6 +310,26 @@ def check_case(case, acc, hashseeds=(0, 1, 2, 3, 4, 5, 6, 7)):
         shutil.rmtree(work, ignore_errors=True)
 
 
+# ---------------------------------------------------------------------------------------------
+# E2: the worker count / thread timing clause decided on every schedule instead of on one free-running timing: the digest
+# (scores, fold membership, the ORDER in which every fit call received its rows - it follows the model's generator -,
+# result files) of a seeded analysis with 3 workers must be the sequential digest under every schedule of every pool
+# invocation with <= 1 / 2 preemptions
+# ---------------------------------------------------------------------------------------------
+def e2_body(case, work):
+    c = dict(case, workers=case.get("e2_workers", 3))
+    c.pop("e2_workers", None)
+
+    def body():
+        d = analysis(c, Path(work) / "e2run")
+        return json.dumps(public(d), sort_keys=True, default=str)
+
+    return body
+
+
+E2_CASES = [dict(seed=2, folds=3, est="rec", fasta="none"), dict(seed=42, folds=4, est="rec", fasta="none", cap=60)]
+
+
 def worker(case):
     acc = Acc()
     check_case(case, acc, hashseeds=tuple(case.pop("_hashseeds", range(8))))
@@ -342,12 +362,30 @@ def run(ctx):
         cases.append(dict(seed=s, folds=3, workers=1, cli=True, _hashseeds=list(hs)))
         cases.append(dict(seed=s, folds=3, workers=1, cli=True, key="file", _hashseeds=list(hs)))
     ctx.pmap(worker, cases)
+    from mc import e2drv
+
+    infos = e2drv.run_all(ctx, "checks.c08_determinism", E2_CASES[: 1 if ctx.quick else 2],
+                          lambda focus, quick=ctx.quick: (1, "task") if quick else (2, "task"))
+    ex = ctx.acc.extra
+    ctx.info["states"] = ex.get("e2_executions", 0)
+    ctx.info["transitions"] = ex.get("e2_transitions", 0)
+    ctx.info["traces_validated_against_impl"] = ex.get("e2_executions", 0)
+    ctx.info["e2"] = infos
     ctx.exhaustive = True
-    ctx.info["bound"] = {"cases": len(cases), "hash_seeds": list(hs)}
+    ctx.info["bound"] = {"cases": len(cases), "hash_seeds": list(hs), "e2_preemption_bound": 1 if ctx.quick else 2}
 
 
 def replay(case):
     acc = Acc()
+    if "e2" in case:
+        from mc import e2drv
+
+        differs, reproducible, exc = e2drv.replay("checks.c08_determinism", case)
+        if not reproducible:
+            acc.violation(Violation("harness-nondeterministic-replay", "same schedule, different observations", case))
+        elif differs:
+            acc.violation(Violation("schedule-changes-result", "replayed schedule differs from sequential", case))
+        return acc.violations
     case = {k: v for k, v in case.items() if k != "variant"}
     check_case(case, acc)
     return acc.violations
